@@ -53,20 +53,22 @@ theorem evalVariable_nobuiltin (st : Static) (defs : Defs) (ctx : RCtx) (level :
     exfalso
     by_cases hl : (level == 0) = true
     · simp only [hl, if_true] at heq
-      cases hh : path.head? with
-      | none => rw [hh] at heq; cases heq
-      | some n =>
-        rw [hh] at heq
-        simp only [hl, hh, Bool.true_and, Option.map_some, Option.getD_some] at hg
-        simp only at heq
-        split at heq
-        · rename_i h1
-          apply hg
-          simp only [Bool.or_eq_true, beq_iff_eq] at h1
-          rcases h1 with h1 | h1 <;> simp [h1]
-        · split at heq
-          · rename_i h2; apply hg; simp [h2]
-          · cases heq
+      cases path with
+      | nil => cases heq
+      | cons n rest =>
+        cases rest with
+        | cons m rest' => cases heq
+        | nil =>
+          simp only [hl, List.head?_cons, Bool.true_and, Option.map_some, Option.getD_some] at hg
+          simp only at heq
+          split at heq
+          · rename_i h1
+            apply hg
+            simp only [Bool.or_eq_true, beq_iff_eq] at h1
+            rcases h1 with h1 | h1 <;> simp [h1]
+          · split at heq
+            · rename_i h2; apply hg; simp [h2]
+            · cases heq
     · simp only [hl] at heq; cases heq
   · rfl
 
